@@ -53,6 +53,8 @@ for sid in ids:
         if marker not in txt: print(sid, "marker not found in", mf); continue
         txt = txt.replace(marker, open(os.path.join(d, spec["file"])).read() + "\n" + marker, 1)
         open(os.path.join(WT, mf), "w").write(txt)
+    for mf, src in place.get("append_file", {}).items():
+        with open(os.path.join(WT, mf), "a") as f: f.write("\n" + open(os.path.join(d, src)).read() + "\n")
     for mf, line in place.get("append", {}).items():
         with open(os.path.join(WT, mf), "a") as f: f.write("\n" + line + "\n")
     t0 = time.time()
